@@ -5,13 +5,25 @@ import (
 	"runtime/debug"
 )
 
-// taskCtx is the task-side handle. It is only ever touched by its own goroutine.
+// taskCtx is the hand-over cell of one task: the kernel stores the reply and releases sema.
 type taskCtx struct {
-	id  int64
-	rfd int
-	buf []byte
-	hdr [hdrLen]byte
+	id   int64
+	sema uint32
+	in   reply
 }
+
+// feederCtx is the hand-over cell of one timer feeder.
+type feederCtx struct {
+	sema uint32
+	cmd  int64
+	now  int64
+}
+
+//go:norace
+func newTaskCtx() *taskCtx { return new(taskCtx) }
+
+//go:norace
+func newFeederCtx() *feederCtx { return new(feederCtx) }
 
 // Globals touched only by the current token holder, always inside //go:norace functions.
 var (
@@ -19,7 +31,6 @@ var (
 	vnow    int64
 	budget  int64
 	active  bool
-	kfd     int // write end of the pipe to the kernel
 	nextID  uint32
 	nextTID int64
 )
@@ -54,40 +65,28 @@ func NewID() uint32 {
 
 //go:norace
 func call(op, a, b, c, d int64, payload []byte) reply {
+	return callx(op, a, b, c, d, payload, nil, nil)
+}
+
+//go:norace
+func callx(op, a, b, c, d int64, payload []byte, ctx *taskCtx, fd *feederCtx) reply {
 	me := cur
 	if me == nil {
 		fatal("simrt: call outside a task")
 	}
-	n := hdrLen + len(payload)
-	if cap(me.buf) < n {
-		me.buf = make([]byte, n, n*2)
-	}
-	buf := me.buf[:n]
-	putInt(buf, 0, op)
-	putInt(buf, 1, a)
-	putInt(buf, 2, b)
-	putInt(buf, 3, c)
-	putInt(buf, 4, d)
-	putInt(buf, 5, int64(len(payload)))
-	copy(buf[hdrLen:], payload)
-	rawWrite(kfd, buf)
+	mbox.op, mbox.a, mbox.b, mbox.c, mbox.d = op, a, b, c, d
+	mbox.payload = clone(payload)
+	mbox.ctx, mbox.fd = ctx, fd
+	semrelease(&ksema, true, 0)
 	return waitWake(me)
 }
 
 //go:norace
 func waitWake(me *taskCtx) reply {
-	h := me.hdr[:]
-	rawRead(me.rfd, h)
-	var r reply
-	r.r0 = getInt(h, 0)
-	r.r1 = getInt(h, 1)
-	r.now = getInt(h, 2)
-	r.budget = getInt(h, 3)
-	r.tid = getInt(h, 4)
-	if pl := getInt(h, 5); pl > 0 {
-		r.payload = make([]byte, pl)
-		rawRead(me.rfd, r.payload)
-	}
+	semacquire(&me.sema)
+	r := me.in
+	me.in = reply{}
+	r.payload = clone(r.payload)
 	cur = me
 	me.id = r.tid
 	vnow = r.now
@@ -132,10 +131,9 @@ func spawn(site int, kind int, f func()) {
 		go f()
 		return
 	}
-	r, w := rawPipe()
-	t := &taskCtx{rfd: r}
+	t := newTaskCtx()
 	go taskMain(t, f)
-	call(opGo, int64(site), int64(w), int64(kind), 0, nil)
+	callx(opGo, int64(site), 0, int64(kind), 0, nil, t, nil)
 }
 
 func taskMain(t *taskCtx, f func()) {
@@ -153,21 +151,9 @@ func taskMain(t *taskCtx, f func()) {
 
 //go:norace
 func exitTask(t *taskCtx) {
-	n := hdrLen
-	buf := t.buf
-	if cap(buf) < n {
-		buf = make([]byte, n)
-	}
-	buf = buf[:n]
-	putInt(buf, 0, opExit)
-	putInt(buf, 1, 0)
-	putInt(buf, 2, 0)
-	putInt(buf, 3, 0)
-	putInt(buf, 4, 0)
-	putInt(buf, 5, 0)
-	rfd := t.rfd
-	rawWrite(kfd, buf)
-	rawClose(rfd)
+	mbox.op, mbox.a, mbox.b, mbox.c, mbox.d = opExit, 0, 0, 0, 0
+	mbox.payload, mbox.ctx, mbox.fd = nil, nil, nil
+	semrelease(&ksema, true, 0)
 }
 
 // Lock modes
@@ -278,8 +264,8 @@ func Seq() int64 {
 // ---- timers ----
 
 // TimerNew registers a timer with the kernel. The caller has already started the feeder.
-func timerNew(id uint32, d, period int64, wfd int) {
-	call(opTimerNew, int64(id), d, period, int64(wfd), nil)
+func timerNew(id uint32, d, period int64, fd *feederCtx) {
+	callx(opTimerNew, int64(id), d, period, 0, nil, nil, fd)
 }
 
 func TimerStop(id uint32) bool {
@@ -301,35 +287,33 @@ func TimerReset(id uint32, d, period int64) bool {
 // block. It returns the timer id.
 func StartTimer(d, period int64, auto bool, fire func(now int64)) uint32 {
 	id := NewID()
-	r, w := rawPipe()
-	go feeder(r, fire)
+	fd := newFeederCtx()
+	go feeder(fd, fire)
 	if auto && period == 0 {
 		period = -1 // one shot, feeder closed by the kernel after it fired
 	}
-	timerNew(id, d, period, w)
+	timerNew(id, d, period, fd)
 	return id
 }
 
 // feeder is not a task. It waits for the kernel's command, performs the non-blocking
 // delivery and acknowledges, so the kernel knows the effect is complete.
-func feeder(rfd int, fire func(now int64)) {
-	var cmd [9]byte
-	var ack [hdrLen]byte
-	putInt(ack[:], 0, opAck)
+func feeder(fd *feederCtx, fire func(now int64)) {
 	for {
-		rawRead(rfd, cmd[:])
-		if cmd[0] == 2 { // quit
-			rawClose(rfd)
+		cmd, now := feederWait(fd)
+		if cmd == 2 { // quit
 			return
 		}
-		now := getInt(cmd[1:], 0)
 		fire(now)
-		rawWrite(kfdRO(), ack[:])
+		semrelease(&ksema, true, 0) // acknowledge: the kernel is waiting for exactly this
 	}
 }
 
 //go:norace
-func kfdRO() int { return kfd }
+func feederWait(fd *feederCtx) (int64, int64) {
+	semacquire(&fd.sema)
+	return fd.cmd, fd.now
+}
 
 // ---- network / disk ----
 
